@@ -2,6 +2,18 @@
 # Regenerates MANIFEST.json from the table below (kept in one place so the manifest stays valid).
 import json, subprocess
 CLAIMED = {
+ "C20": dict(
+   text="Contracts on sample.sample/initialize, kxps.doSample/sampleAverage and the kbps/krps accessors with IEEE-754 semantics (SMT FloatingPoint theory): due/not-due behaviour, the rate formula increase*1000/window_ms, 0 on stall/backwards/2^63 jumps, every reported value finite, non-negative and bounded, frames (doSample touches only the three windows; the average baseline never moves once set), kbps = rate*8/1000, and refusal (panic) before Start as a panics_iff clause.",
+   note="Trusted: govc, go/ssa, solvers; time.Time modelled as an abstract signed 64-bit nanosecond instant (Add/Sub assumed not to overflow); the sampling goroutine and wall clock of Start are outside the contracts; the counter source is an arbitrary function.",
+   design="7/C20"),
+ "C05": dict(
+   text="Contracts on every scalar AMF0 codec (UTF-8 names, Number, Boolean, String, null/undefined, object-end): Size() closed forms, marshal length == Size(), wire layout, decode acceptance and values, Size() after decode == bytes consumed; bit-exact Number round trip for all 2^64 patterns and String round trip up to 65535 bytes with trailing data (lemmas).",
+   note="PARTIAL: containers (Object/EcmaArray/StrictArray) are not under contract in this check - their interface-dispatching loops, closures and repeated-key semantics are only covered for panic-freedom; the tree-level induction is not mechanised. Trusted: govc, go/ssa, solvers.",
+   design="7/C05"),
+ "C06": dict(
+   text="Discovery over all 256 marker bytes (supported markers yield a value of exactly that marker, everything else is an error); scalar wire layouts against spec functions written from the AMF0 specification, both directions.",
+   note="PARTIAL: container layouts (object/ECMA array/strict array framing) are not under contract; the library's keyed strict-array layout is pinned by its own tests. Trusted: govc, go/ssa, solvers.",
+   design="7/C06"),
  "C12": dict(
    text="Contracts on the real NALUHeader/NALU/AVCDecoderConfigurationRecord/AVCSample methods from ISO 14496-10 7.3.1 and ISO 14496-15 5.2.4.1.1: all 256 NAL header bytes, NAL unit round trips for any payload size (lemmas), the six fixed record bytes including reserved bits, SPS count = appended list length, loop invariants and termination measures, frame conditions, panic-freedom of all decoders - all unbounded. List-level round trips (2 SPS + 1 PPS; 2-NALU samples for each length size, children of any size) are bounded stand-ins run in the thorough tier.",
    note="Trusted: govc, go/ssa, solvers; bytes.Buffer as a byte sequence; append in place exempt from frame checks. Not decided: position-dependent facts that need a recursive sequence spec (e.g. the PPS count byte of a record with >= 32 PPS) - only covered by the bounded lemmas.",
